@@ -352,7 +352,9 @@ api_case (const unsigned char key[8], const unsigned char blk[8], unsigned char 
   memcpy (bv2, bv, 64);
   p_setkey (kv);
   p_encrypt (bv, 0);
-  memset (RD, 0, sizeof *RD);
+  /* the re-entrant pair works on an object with arbitrary contents (old glibc contract: only 'initialized' is cleared) */
+  memset (RD, junk ? 0xA5 : 0, sizeof *RD);
+  RD->initialized = 0;
   p_setkey_r (kv, RD);
   p_encrypt_r (bv2, 0, RD);
   vh_stat ("evaluations", 2);
